@@ -52,6 +52,27 @@ pub fn check_message(m: &RefMsg, rep: &mut Report) -> Option<Vec<u8>> {
                 Err(e) => bad.push(("own_encoding_rejected", "Ok".into(), format!("{:?} ({})", e, label))),
             }
         }
+        // "comes back EQUAL" only means something if equality is the equality of kind and fields: a copy is equal and
+        // hashes alike; a message that differs in one field, or in kind, is a different message (checked on a sample:
+        // equality is cheap, but there are millions of messages)
+        if fnv(sig.as_bytes()) % 16 == 0 {
+            use std::hash::{Hash, Hasher};
+            let h = |x: &Message<'_>| {
+                let mut s = std::collections::hash_map::DefaultHasher::new();
+                x.hash(&mut s);
+                s.finish()
+            };
+            let copy = msg.clone();
+            if copy != msg || h(&copy) != h(&msg) {
+                bad.push(("clone_or_hash_differs", sig.clone(), format!("{:?}", copy)));
+            }
+            for other in neighbours(m) {
+                let o = refs::from_ref(&other);
+                if o == msg || msg == o {
+                    bad.push(("different_messages_compare_equal", format!("{} != {}", sig, other.show()), "equal".into()));
+                }
+            }
+        }
         (bad, wire)
     });
     let det = |exp: &str, obs: &str| J::obj(vec![("message", J::s(sig.clone())), ("expected", J::s(exp)), ("observed", J::s(obs))]);
@@ -71,6 +92,56 @@ pub fn check_message(m: &RefMsg, rep: &mut Report) -> Option<Vec<u8>> {
         rep.sample(|| J::obj(vec![("message", J::s(sig.clone())), ("wire", J::s(out.as_deref().map(show_bytes).unwrap_or_default()))]));
     }
     out
+}
+
+/// Messages that differ from `m` in exactly one respect (address / offset, operation, state, one data byte, data length,
+/// kind under the same address).
+fn neighbours(m: &RefMsg) -> Vec<RefMsg> {
+    let bump = |a: u16| [a.wrapping_add(1), a ^ 0x8000, a ^ 0x0100, a.rotate_left(8) ^ 1];
+    let mut v = vec![];
+    match m {
+        RefMsg::Hello(a) => v.extend(bump(*a).into_iter().map(RefMsg::Hello).chain([RefMsg::Query(*a), RefMsg::Goodbye(*a), RefMsg::Complete(*a), RefMsg::Count(*a)])),
+        RefMsg::Query(a) => v.extend(bump(*a).into_iter().map(RefMsg::Query).chain([RefMsg::Hello(*a), RefMsg::Goodbye(*a)])),
+        RefMsg::Goodbye(a) => v.extend(bump(*a).into_iter().map(RefMsg::Goodbye).chain([RefMsg::Hello(*a), RefMsg::Complete(*a)])),
+        RefMsg::Complete(a) => v.extend(bump(*a).into_iter().map(RefMsg::Complete).chain([RefMsg::Hello(*a), RefMsg::Goodbye(*a)])),
+        RefMsg::Count(n) => v.extend(bump(*n).into_iter().map(RefMsg::Count).chain([RefMsg::Hello(*n), RefMsg::Data { offset: *n, data: vec![] }])),
+        RefMsg::Request(a, o) => {
+            v.extend(bump(*a).into_iter().map(|x| RefMsg::Request(x, *o)));
+            v.extend((0..refs::N_OPS).filter(|x| x != o).map(|x| RefMsg::Request(*a, x)));
+            v.push(RefMsg::Ack(*a, *o));
+        }
+        RefMsg::Ack(a, o) => {
+            v.extend(bump(*a).into_iter().map(|x| RefMsg::Ack(x, *o)));
+            v.extend((0..refs::N_OPS).filter(|x| x != o).map(|x| RefMsg::Ack(*a, x)));
+            v.push(RefMsg::Request(*a, *o));
+        }
+        RefMsg::Report(a, s) => {
+            v.extend(bump(*a).into_iter().map(|x| RefMsg::Report(x, *s)));
+            v.extend((0..refs::N_STATES).filter(|x| x != s).map(|x| RefMsg::Report(*a, x)));
+        }
+        RefMsg::Data { offset, data } => {
+            v.extend(bump(*offset).into_iter().map(|x| RefMsg::Data { offset: x, data: data.clone() }));
+            if data.len() < 255 {
+                let mut d = data.clone();
+                d.push(0);
+                v.push(RefMsg::Data { offset: *offset, data: d });
+            }
+            if !data.is_empty() {
+                v.push(RefMsg::Data { offset: *offset, data: data[..data.len() - 1].to_vec() });
+                for k in [0, data.len() / 2, data.len() - 1] {
+                    let mut d = data.clone();
+                    d[k] ^= 0x01;
+                    v.push(RefMsg::Data { offset: *offset, data: d.clone() });
+                    d[k] ^= 0x81;
+                    v.push(RefMsg::Data { offset: *offset, data: d });
+                }
+            } else {
+                v.push(RefMsg::Count(*offset));
+            }
+        }
+        RefMsg::Unknown { .. } => {}
+    }
+    v
 }
 
 /// Injectivity: remembers (hash of wire bytes) -> message; a second, different message with the same bytes is a violation.
